@@ -53,7 +53,7 @@ PROPS["C03"] = {
 PROPS["C05"] = {
     "title": "A new version becomes active only when the promotion rule allows it",
     "level": "exploration",
-    "level_text": "The promotion lattice of the property (strategy x age-vs-duration incl. the boundary instants x noRestartsDuration x last restart x pause source x unpaused x canary-valid x failed x recorded active set present / being deleted under a finalizer / gone x recorded status.canary; 48384 points) is enumerated completely through the real ExtendedDaemonSet Reconcile on a store prepared by the real reconciler, on the virtual clock; each switch of status.activeReplicaSet is judged by a reference rule (three-valued at the boundary instants). The same rule is checked after every EDS reconcile of generated histories. A second job plays the complete product of failure routes x faults of the rollback's two-write window x pause x elapsed duration x reconcile order as histories and demands that a canary marked failed never becomes active (promotion-rule and canary-latch monitors after every reconcile, end-state check).",
+    "level_text": "The promotion lattice of the property (strategy x age-vs-duration incl. the boundary instants x noRestartsDuration x last restart x pause source x unpaused x canary-valid x failed x recorded active set present / being deleted under a finalizer / gone x recorded status.canary; 69120 points) is enumerated completely through the real ExtendedDaemonSet Reconcile on a store prepared by the real reconciler, on the virtual clock; each switch of status.activeReplicaSet is judged by a reference rule (three-valued at the boundary instants). The same rule is checked after every EDS reconcile of generated histories. A second job plays the complete product of failure routes x faults of the rollback's two-write window x pause x elapsed duration x reconcile order as histories and demands that a canary marked failed never becomes active (promotion-rule and canary-latch monitors after every reconcile, end-state check).",
     "level_note": "Exhaustive only for the finite lattice named here (exhaustive_subspaces in the evidence); durations other than the sampled ones and interleavings are covered by sampling in the history tests.",
     "technique": "exhaustive enumeration of a finite input lattice + property-based sampling (rapid) against a reference promotion rule; stateful histories with a per-reconcile invariant",
     "quick": {"jobs": [rapid_job("lattice-sample", "^TestC05Lattice$", 1500), rapid_job("lattice-all", "^TestC05Exhaustive$", 1, shards=4), rapid_job("failed-stays", "^TestC05FailedStays$", 1, shards=4)]},
@@ -75,11 +75,11 @@ SM_NOTE = "Histories are sampled, not enumerated: 1-8 nodes, up to 3-4 replica s
 PROPS["C01"] = {
     "title": "At most one daemon pod per node, and only on eligible nodes",
     "level": "exploration",
-    "level_text": "Stateful property test: generated histories interleave the real EDS/replica-set reconcilers with kubelet, scheduler, user and node actions (incl. duplicate pods, Failed/Unknown phases, taints, relabels, eligibility-changing templates, canaries); after every reconcile the pod Creates/Deletes it issued are judged against the state it read by an independent eligibility/keeper oracle (no create on absent/unfit/occupied node, never two per node per sync, duplicates resolved to the scheduled-oldest pod, pods on ineligible nodes deleted, Unknown pods untouched). A function-level differential test drives FilterAndMapPodsByNode and CheckNodeFitness with generated nodes, templates and pod multisets against the same oracle, and a native fuzz target covers the eligibility predicate.",
+    "level_text": "Stateful property test: generated histories interleave the real EDS/replica-set reconcilers with kubelet, scheduler, user and node actions (incl. duplicate pods, Failed/Unknown phases, taints, relabels, eligibility-changing templates, canaries); after every reconcile the pod Creates/Deletes it issued are judged against the state it read by an independent eligibility/keeper oracle (no create on absent/unfit/occupied node, never two per node per sync, duplicates resolved to the scheduled-oldest pod, pods on ineligible nodes deleted, Unknown pods untouched). A function-level differential test drives FilterAndMapPodsByNode and CheckNodeFitness with generated nodes, templates and pod multisets against the same oracle, a creation sync with one pod creation refused or stored-but-answered-with-an-error checks that no answer makes a sync create two pods for a node, and a native fuzz target covers the eligibility predicate.",
     "level_note": SM_NOTE + " Failed pods inside their deletion back-off may or may not count among the pods of a node (statement readable both ways); reads are linearizable (informer staleness is outside the statement's 'state it read').",
     "technique": "stateful property-based testing (rapid) with per-step invariants + differential testing against a reference eligibility model + native go fuzz",
-    "quick": {"jobs": [rapid_job("sm", "^TestC01SM$", 750, shards=4), rapid_job("fitness", "^TestC01Fitness$", 20000), rapid_job("filter", "^TestC01Filter$", 5000)]},
-    "thorough": {"jobs": [rapid_job("sm", "^TestC01SM$", 4000, shards=12, timeout="50m"), rapid_job("fitness", "^TestC01Fitness$", 300000, shards=2), rapid_job("filter", "^TestC01Filter$", 60000, shards=2),
+    "quick": {"jobs": [rapid_job("sm", "^TestC01SM$", 750, shards=4), rapid_job("fitness", "^TestC01Fitness$", 20000), rapid_job("filter", "^TestC01Filter$", 5000), rapid_job("create-faults", "^TestC01CreateFaults$", 1500)]},
+    "thorough": {"jobs": [rapid_job("sm", "^TestC01SM$", 4000, shards=12, timeout="50m"), rapid_job("fitness", "^TestC01Fitness$", 300000, shards=2), rapid_job("filter", "^TestC01Filter$", 60000, shards=2), rapid_job("create-faults", "^TestC01CreateFaults$", 20000, shards=2),
                           fuzz_job("fuzz-fitness", "^FuzzC01Fitness$", fuzztime="90s", workers=4)]},
     "log_violations": True,
 }
